@@ -182,3 +182,5 @@ func HTTPError(w http.ResponseWriter, msg string, code int) {
 }
 
 func HTTPNotFound(w http.ResponseWriter, r *http.Request) { HTTPError(w, "404 page not found", 404) }
+
+func HTTPNotFoundHandler() http.Handler { return http.HandlerFunc(HTTPNotFound) }
